@@ -6,7 +6,8 @@ import Hive.Props.C19Shl
 import Hive.Props.C19MulU64
 import Hive.Props.C19MulI64
 import Hive.Props.C19MulDiv
-import Hive.Proofs.SafeMathErr
+import Hive.Props.C19Ops
+import Hive.Props.C19Err
 /-!
 # C19 — safemath returns the exact result or an overflow error, never wraps
 
@@ -19,24 +20,7 @@ every shift count.
 namespace Hive.GoInt
 open Hive.Gen.SafeMath IntTy
 
-/-- Meaning of `exact`: the mathematical result if representable, the overflow error otherwise. -/
-theorem C19_exact_spec (T : IntTy) (z : Int) :
-    (∀ r, exact T z = .ok r → r = z ∧ T.InRange z) ∧ (exact T z = .overflow → ¬ T.InRange z) ∧
-      exact T z ≠ .divzero ∧ exact T z ≠ .panic := by
-  unfold exact
-  by_cases h : T.InRange z <;> simp [h]
-
-/-- Every function named by the property was found in the source and translated. -/
-theorem C19_all_translated :
-    ∀ f ∈ ["SafeAdd", "SafeSub", "SafeMul", "SafeDiv", "SafeLeftShift", "SafeMulUint64", "SafeMulInt64", "Safe64MulDiv"],
-      f ∈ translated := by decide
-
 /-! ## The clauses of the property, read off the exactness theorems -/
-
-/-- The eight Go integer types all have positive width (so every theorem below applies to them). -/
-def goTypes : List IntTy := [.u8, .u16, .u32, .u64, .i8, .i16, .i32, .i64]
-
-theorem C19_go_types_covered : ∀ T ∈ goTypes, 0 < T.bits := by decide
 
 /-- "never a wrapped value": an `ok r` answer of a generic function is the exact mathematical result, and it is
 representable. -/
@@ -83,7 +67,7 @@ theorem C19_never_spurious (T : IntTy) (hw : 0 < T.bits) (x y : Int) (hx : T.InR
     · rw [if_neg hy0] at h; exact ⟨hy0, (exact_overflow_iff T _).mp h⟩
   · by_cases hy0 : y = 0
     · simp [hy0]
-    · simp only [if_neg hy0, hy0, iff_false]; exact (e _).2.2.1
+    · simp only [hy0, iff_false]; exact (e _).2.2.1
   · by_cases hy0 : y = 0
     · simp [hy0]
     · rw [if_neg hy0]; exact (e _).2.2.2
@@ -124,105 +108,6 @@ theorem C19_statement_holds : C19_statement := by
   have hw := C19_go_types_covered T hT
   exact ⟨C19_add_exact T hw x y hx hy, C19_sub_exact T hw x y hx hy, C19_mul_exact T hw x y hx hy,
     C19_div_exact T hw x y hx hy, fun n _ => C19_shl_exact T hw x n hx⟩
-
-/-! ## The Go integer semantics used by the model meet their specification (`Hive/Base/GoInt.lean`) -/
-
-/-- `wrap` is *the* two's-complement reduction: the unique in-range number congruent to `z` modulo `2^bits`. -/
-theorem C19_wrap_spec (T : IntTy) (hw : 0 < T.bits) (z : Int) :
-    T.InRange (T.wrap z) ∧ (∃ k, T.wrap z = z - k * 2 ^ T.bits) ∧
-      ∀ w k : Int, T.InRange w → w = z - k * 2 ^ T.bits → w = T.wrap z := by
-  refine ⟨T.wrap_inRange hw z, T.wrap_congr hw z, ?_⟩
-  intro w k hwr hk
-  have := T.wrap_shift hw z k (by unfold IntTy.modulus; rw [← hk]; exact hwr)
-  rw [this]; exact hk
-
-/-- `bits.Mul64` as modelled: `hi·2^64 + lo = x·y` with both words in range. -/
-theorem C19_mul64_spec (x y : Int) (hx : IntTy.u64.InRange x) (hy : IntTy.u64.InRange y) :
-    (mul64 x y).1 * 2 ^ 64 + (mul64 x y).2 = x * y ∧ IntTy.u64.InRange (mul64 x y).1 ∧ IntTy.u64.InRange (mul64 x y).2 := by
-  rw [u64_inRange] at hx hy
-  simp only [mul64, u64_inRange, pow64]
-  have hp : 0 ≤ x * y := Int.mul_nonneg hx.1 hy.1
-  have hle : x * y ≤ 18446744073709551615 * 18446744073709551615 :=
-    Int.mul_le_mul (by omega) (by omega) hy.1 (by decide)
-  have hlt : x * y < 18446744073709551616 * 18446744073709551616 := by omega
-  have h1 := Int.emod_add_mul_ediv (x * y) 18446744073709551616
-  have h2 := Int.emod_nonneg (x * y) (b := 18446744073709551616) (by decide)
-  have h3 := Int.emod_lt_of_pos (x * y) (b := 18446744073709551616) (by decide)
-  have h4 : 0 ≤ x * y / 18446744073709551616 := Int.ediv_nonneg hp (by decide)
-  have h5 : x * y / 18446744073709551616 < 18446744073709551616 :=
-    Int.ediv_lt_of_lt_mul (by decide) hlt
-  omega
-
-/-- `bits.Div64` as modelled: panics exactly when the quotient does not fit (`y ≤ hi`, which includes `y = 0`),
-otherwise quotient and remainder of the 128-bit number. -/
-theorem C19_div64_spec (hi lo y : Int) (hh : IntTy.u64.InRange hi) (hy : IntTy.u64.InRange y) :
-    (div64 hi lo y = none ↔ y ≤ hi) ∧
-    ∀ q r, div64 hi lo y = some (q, r) → q * y + r = hi * 2 ^ 64 + lo ∧ 0 ≤ r ∧ r < y := by
-  rw [u64_inRange] at hh hy
-  unfold div64
-  constructor
-  · by_cases h : y = 0 ∨ y ≤ hi
-    · simp only [if_pos h, true_iff]; omega
-    · simp only [if_neg h]; constructor
-      · intro c; cases c
-      · intro c; omega
-  · intro q r h
-    by_cases hc : y = 0 ∨ y ≤ hi
-    · simp [hc] at h
-    · simp only [if_neg hc, Option.some.injEq, Prod.mk.injEq] at h
-      have hy0 : 0 < y := by omega
-      have h1 := Int.emod_add_mul_ediv (hi * 2 ^ 64 + lo) y
-      have h2 := Int.emod_nonneg (hi * 2 ^ 64 + lo) (Int.ne_of_gt hy0)
-      have h3 := Int.emod_lt_of_pos (hi * 2 ^ 64 + lo) hy0
-      rw [← h.1, ← h.2]
-      refine ⟨?_, h2, h3⟩
-      rw [Int.mul_comm]; omega
-
-/-! ## Identity of the returned errors (`errors.Is`), from regenerated facts
-
-`sentinelDefs`, `ierrorsWrappers` and `errorSites` are extracted from safe_math.go and from
-ierrors/ierrors_no_stacktrace.go on every run.  The generated functions above answer `Res.overflow` / `Res.divzero`
-where the translator *read* an overflow / division-by-zero error; the theorems below check that reading against the
-model of `errors.Is` in Hive/Model/SafeMathErr.lean. -/
-section ErrorIdentity
-open Hive.SafeMathErr
-
-/-- Every `return …, err` of every translated function returns an error for which `errors.Is` answers exactly
-what the generated definition claims: the overflow sentinel and not the division-by-zero sentinel, or vice versa. -/
-theorem C19_error_identity : ∀ s ∈ errorSites, siteClass sentinelDefs ierrorsWrappers s = some s.res :=
-  sitesOK_sound _ _ _ (by decide)
-
-/-- The two sentinels are distinct fresh identities (neither wraps the other). -/
-theorem C19_sentinels_distinct :
-    sentinelChains sentinelDefs =
-      [("ErrIntegerOverflow", ["ErrIntegerOverflow"]), ("ErrIntegerDivisionByZero", ["ErrIntegerDivisionByZero"])] := by
-  decide
-
-/-- The ierrors wrapper used by safemath wraps exactly its first argument on every return path (as do its siblings). -/
-theorem C19_ierrors_wrappers :
-    ∀ f ∈ ["WithMessagef", "WithMessage", "Wrap", "Wrapf", "WithStack"], f ∈ okWrappers ierrorsWrappers := by decide
-
-/-- Every function of the property that can fail has its error returns among the verified sites, and the set of
-answers per function is the expected one (division functions: both errors; the others: overflow only). -/
-theorem C19_error_sites_cover :
-    (errorSites.map (fun s => (s.fn, s.res))).eraseDups =
-      [("SafeAdd", "overflow"), ("SafeSub", "overflow"), ("SafeMul", "overflow"), ("SafeMulUint64", "overflow"),
-       ("SafeMulInt64", "overflow"), ("SafeDiv", "divzero"), ("SafeDiv", "overflow"), ("SafeLeftShift", "overflow"),
-       ("Safe64MulDiv", "divzero"), ("Safe64MulDiv", "overflow")] := by decide
-
-/-- Witness that the classification is not vacuous: an `Errorf` without `%w`, a sentinel defined by wrapping the other
-one, and an unknown wrapper are all rejected. -/
-example : siteClass sentinelDefs ierrorsWrappers ⟨"f", 0, "overflow", [.fresh]⟩ = some "err" ∧
-    siteClass [("ErrIntegerDivisionByZero", [.fresh]), ("ErrIntegerOverflow", [.sentinel "ErrIntegerDivisionByZero", .errorf 1])]
-      ierrorsWrappers ⟨"f", 0, "overflow", [.sentinel "ErrIntegerOverflow", .call "WithMessagef"]⟩ = some "err-both" ∧
-    siteClass [("ErrIntegerOverflow", [.fresh]), ("ErrIntegerDivisionByZero", [.sentinel "ErrIntegerOverflow", .call "Wrap"])]
-      ierrorsWrappers ⟨"f", 0, "divzero", [.sentinel "ErrIntegerDivisionByZero", .call "WithMessagef"]⟩ = some "err-both" ∧
-    siteClass [("ErrIntegerOverflow", [.fresh]), ("ErrIntegerDivisionByZero", [.opaque "mystery()"])]
-      ierrorsWrappers ⟨"f", 0, "divzero", [.sentinel "ErrIntegerDivisionByZero", .call "WithMessagef"]⟩ = some "err-unknown" ∧
-    siteClass sentinelDefs ierrorsWrappers ⟨"f", 0, "overflow", [.sentinel "ErrIntegerOverflow", .call "Mystery"]⟩ = none := by
-  decide
-
-end ErrorIdentity
 
 /-! Non-vacuity: the hypotheses are satisfied by the Go types and by boundary operands. -/
 example : 0 < IntTy.i8.bits ∧ IntTy.i8.InRange (-128) ∧ IntTy.i8.InRange 127 ∧ ¬ IntTy.i8.InRange 128 := by decide
